@@ -272,7 +272,7 @@ def run_job(job):
     for side in (0, 1):
         # how many events does this side's first delivery carry?
         _, n = run_variant(job, side, ("none",))
-        oid_is_path, _cs, filt = cfg[side]
+        oid_is_path, _cs, filt = cfg[side][:3]
         id_stable = not oid_is_path
         plans = plans_for(min(n, 6), id_stable, filt) if n else [("noid",)]
         variants = [(p, None, False) for p in plans]
